@@ -34,3 +34,15 @@ def guard(S, I, thunk, allowed=(), native=None):
 
 def npx(v):
     return xr(v).asnp()
+
+
+def run_loop_body(I, st, env, in_class):
+    """one iteration of a loop body inside an invariant / summary: `continue` ends the iteration, `break` is outside what
+    the summaries describe (the script is then not applicable to this code shape)"""
+    from pyvc.interp import ContinueEx, BreakEx
+    try:
+        I.exec_block(st.body, env, in_class)
+    except ContinueEx:
+        return
+    except BreakEx:
+        raise NotApplicable("the loop body leaves the loop with `break`")
